@@ -1,12 +1,240 @@
-// Additional flow-case steps: stream-power eroder, flow kernels, stand-alone basin graph.
+// Additional flow-case steps: flow kernels (C10), stream-power eroder (C12, C13), stand-alone basin
+// graph (C15).
 #pragma once
+#include <atomic>
+
+#include "fastscapelib/flow/flow_kernel.hpp"
+
 #include "flow_driver.hpp"
 
 namespace vh
 {
-    template <class G>
-    void flow_runner<G>::extra_step(const std::string& op, const vj::value& /*s*/, long long /*g*/, vj::obj& /*o*/)
+    // ------------------------------------------------------------------ kernel plumbing
+    // The kernel function is user code: it logs its own calls with one global sequence counter
+    // (begin / end stamps), reads the receivers' outputs and writes its own.
+    struct kernel_shared
     {
-        throw std::runtime_error("unknown step " + op);
+        std::atomic<long> seq{ 0 };
+        std::vector<long> begin, end, thread_of, calls;
+        std::vector<long> out;
+        const void* impl = nullptr;
+        std::function<long(size_t, const std::vector<long>&)> compute;  // node -> value from outputs
+    };
+
+    struct kernel_node
+    {
+        size_t idx = 0;
+        long value = 0;
+        long b = 0, e = 0;
+        long thread = 0;
+        kernel_shared* sh = nullptr;
+    };
+
+    template <class G>
+    void flow_runner<G>::extra_step(const std::string& op, const vj::value& s, long long g, vj::obj& o)
+    {
+        auto& h = graphs.at(g);
+        if (op == "kernel")
+        {
+            namespace fsd = fastscapelib::detail;
+            const auto& im = h.fg->impl();
+            std::string dir = s.get_str("dir", "breadth");
+            int nthreads = static_cast<int>(s.get_int("thr", 1));
+            kernel_shared sh;
+            sh.begin.assign(n, -1);
+            sh.end.assign(n, -1);
+            sh.thread_of.assign(n, -1);
+            sh.calls.assign(n, 0);
+            sh.out.assign(n, -1);
+            // value of a node: 1 + max over its receivers (other than itself) of their value;
+            // with the unordered traversal: a function of the node alone
+            bool ordered = dir != "any";
+            sh.compute = [&im, ordered, this](size_t i, const std::vector<long>& out) -> long
+            {
+                if (!ordered)
+                    return static_cast<long>(3 * i + 1);
+                long v = 0;
+                for (size_t r = 0; r < im.receivers_count()(i); ++r)
+                {
+                    size_t j = im.receivers()(i, r);
+                    if (j != i)
+                        v = std::max(v, out[j] + 1);
+                }
+                return v;
+            };
+            static thread_local long tl_thread = 0;
+            static std::atomic<long> thread_ids{ 0 };
+            fsd::flow_kernel k;
+            k.func = [](void* p) -> int
+            {
+                auto* nd = static_cast<kernel_node*>(p);
+                if (tl_thread == 0)
+                    tl_thread = ++thread_ids;
+                nd->b = nd->sh->seq.fetch_add(1);
+                nd->value = nd->sh->compute(nd->idx, nd->sh->out);
+                nd->thread = tl_thread;
+                nd->e = nd->sh->seq.fetch_add(1);
+                return 0;
+            };
+            k.node_data_getter = [](std::size_t i, void* data, void* p) -> int
+            {
+                auto* nd = static_cast<kernel_node*>(p);
+                nd->idx = i;
+                nd->sh = static_cast<kernel_shared*>(data);
+                return 0;
+            };
+            k.node_data_setter = [](std::size_t i, void* p, void* data) -> int
+            {
+                auto* nd = static_cast<kernel_node*>(p);
+                auto* sh2 = static_cast<kernel_shared*>(data);
+                sh2->out[i] = nd->value;
+                sh2->begin[i] = nd->b;
+                sh2->end[i] = nd->e;
+                sh2->thread_of[i] = nd->thread;
+                sh2->calls[i] += 1;
+                return 0;
+            };
+            k.node_data_create = []() -> void* { return new kernel_node(); };
+            k.node_data_init = nullptr;
+            k.node_data_free = [](void* p) { delete static_cast<kernel_node*>(p); };
+            k.n_threads = nthreads;
+            k.min_block_size = static_cast<int>(s.get_int("minblock", 0));
+            k.min_level_size = static_cast<int>(s.get_int("minlevel", 0));
+            k.apply_dir = dir == "any"     ? fs::flow_graph_traversal_dir::any
+                          : dir == "depth" ? fs::flow_graph_traversal_dir::depth_upstream
+                                           : fs::flow_graph_traversal_dir::breadth_upstream;
+            fsd::flow_kernel_data kd;
+            kd.data = &sh;
+            std::string threw;
+            try
+            {
+                h.fg->apply_kernel(k, kd);
+            }
+            catch (const std::exception& e)
+            {
+                threw = exc_kind(e);
+            }
+            o.str("e", "Kernel").num("g", g).str("dir", dir).num("thr", nthreads);
+            o.num("minblock", k.min_block_size).num("minlevel", k.min_level_size).str("threw", threw);
+            o.ints("calls", sh.calls).ints("begin", sh.begin).ints("end", sh.end).ints("out", sh.out);
+            std::vector<long> distinct(sh.thread_of);
+            std::sort(distinct.begin(), distinct.end());
+            distinct.erase(std::unique(distinct.begin(), distinct.end()), distinct.end());
+            o.num("nthreads_seen", static_cast<long long>(distinct.size()));
+            emit(o.done());
+        }
+        else if (op == "spl")
+        {
+            using fg_t = fs::flow_graph<G>;
+            auto num = [&](const char* k, double def)
+            { return s.has(k) ? s[k].as_double() : def; };
+            double m_exp = num("m", 0.5), n_exp = num("n", 1.0), tol = num("tol", 1e-3), dt = num("dt", 1.0);
+            o.str("e", "Spl").num("g", g);
+            o.raw("par", "{\"m\":\"" + s.get_str("m", "0.5") + "\",\"n\":\"" + s.get_str("n", "1") + "\",\"tol\":\""
+                             + s.get_str("tol", "1e-3") + "\",\"dt\":\"" + s.get_str("dt", "1") + "\"}");
+            // erodibility: scalar or per-node array
+            bool karr = s.has("Ka");
+            auto kv = grid_array<G, double>(*grid, 0.0);
+            if (karr)
+                for (size_t i = 0; i < n; ++i)
+                    kv.flat(i) = s["Ka"][i].as_double();
+            double ks = num("Ks", 1.0);
+            // elevation: the elevation returned by the last update (the usual coupling) or the input
+            const xt::xarray<double>& elev = s.get_str("elev", "out") == "in" ? h.z : *h.out;
+            // drainage area: accumulate(1) or explicit integers
+            xt::xarray<double> area = s.has("A") ? grid_array<G, double>(*grid, 0.0) : h.fg->accumulate(1.0);
+            if (s.has("A"))
+                for (size_t i = 0; i < n; ++i)
+                    area.flat(i) = s["A"][i].as_double();
+            std::string threw;
+            std::unique_ptr<fs::spl_eroder<fg_t>> er;
+            try
+            {
+                if (karr)
+                    er = std::make_unique<fs::spl_eroder<fg_t>>(*h.fg, kv, m_exp, n_exp, tol);
+                else
+                    er = std::make_unique<fs::spl_eroder<fg_t>>(*h.fg, ks, m_exp, n_exp, tol);
+            }
+            catch (const std::exception& e)
+            {
+                threw = exc_kind(e);
+            }
+            o.str("threw", threw);
+            o.num("nlin", (n_exp == 1.0) ? 1 : 0);
+            if (er)
+            {
+                note("spl erode");
+                const auto& e = er->erode(elev, area, dt);
+                std::vector<double> hv(n), ev(n), hn(n);
+                std::vector<long long> ez(n), eq(n), ecls(n), hi(n), hx(n);
+                for (size_t i = 0; i < n; ++i)
+                {
+                    hv[i] = elev.flat(i);
+                    ev[i] = e.flat(i);
+                    hn[i] = hv[i] - ev[i];
+                    ez[i] = same_bits(ev[i], 0.0) ? 1 : 0;
+                    eq[i] = qfix(ev[i], 20);
+                    ecls[i] = dclass(ev[i]);
+                    hx[i] = (std::fabs(hv[i]) < 2.0e9 && hv[i] == std::floor(hv[i])) ? 1 : 0;
+                    hi[i] = hx[i] ? static_cast<long long>(hv[i]) : 0;
+                }
+                o.raw("rh", rk.refs(hv)).raw("re", rk.refs(ev)).raw("rhn", rk.refs(hn));
+                o.raw("rzero", rk.ref(0.0));
+                o.ints("ez", ez).ints("eq", eq).ints("ecls", ecls).ints("hi", hi).ints("hx", hx);
+                o.num("ncorr", static_cast<long long>(er->n_corr()));
+                if (s.has("expect"))
+                    o.raw("expect", vj::dump(s["expect"]));
+                if (s.has("f"))
+                    o.raw("f", vj::dump(s["f"]));
+                if (s.has("ncode"))
+                    o.num("ncode", s["ncode"].as_int());
+                o.num("tolq", static_cast<long long>(std::ceil(std::ldexp(tol, 20))));
+            }
+            emit(o.done());
+        }
+        else if (op == "bgraph")
+        {
+            using bg_t = fs::basin_graph<impl_t>;
+            auto& keep = h.bgs;
+            int meth = s.get_str("m", "kruskal") == "boruvka" ? 1 : 0;
+            // basins / outlets of the implementation must be up to date (as the resolver does)
+            auto lab = h.fg->basins();
+            int key = meth;
+            if (s.get_int("fresh", 0) || !keep.count(key))
+                keep[key] = std::make_unique<bg_t>(
+                    h.fg->impl(), meth ? fs::mst_method::boruvka : fs::mst_method::kruskal);
+            bg_t& bg = *keep[key];
+            bg.update_routes(h.z);
+            o.str("e", "BasinGraph").num("g", g).str("m", meth ? "boruvka" : "kruskal");
+            o.num("nb", static_cast<long long>(bg.basins_count()));
+            std::vector<long long> lv(n);
+            for (size_t i = 0; i < n; ++i)
+                lv[i] = lab.flat(i) == std::numeric_limits<size_t>::max() ? -1
+                                                                          : static_cast<long long>(lab.flat(i));
+            o.ints("lab", lv).ints("outlets", bg.outlets());
+            std::string es = "[";
+            bool f = true;
+            for (const auto& e : bg.edges())
+            {
+                auto sidx = [](size_t x) { return x == static_cast<size_t>(-1) ? -1LL : static_cast<long long>(x); };
+                es += std::string(f ? "" : ",") + "[" + std::to_string(sidx(e.link[0])) + ","
+                      + std::to_string(sidx(e.link[1])) + "," + std::to_string(sidx(e.pass[0])) + ","
+                      + std::to_string(sidx(e.pass[1])) + ","
+                      + (e.pass[0] == static_cast<size_t>(-1) ? std::string("-1") : rk.ref(e.pass_elevation))
+                      + "]";
+                f = false;
+            }
+            o.raw("edges", es + "]");
+            o.ints("tree", bg.tree());
+            std::vector<double> zi(n);
+            for (size_t i = 0; i < n; ++i)
+                zi[i] = h.z.flat(i);
+            o.raw("z", rk.refs(zi));
+            emit(o.done());
+            if (s.get_int("forget", 0))
+                keep.erase(key);
+        }
+        else
+            throw std::runtime_error("unknown step " + op);
     }
 }
